@@ -393,7 +393,7 @@ def run_ddpg_ou(zoo, alg, g, *, seed):
         ev = project(g, out)
     except Exception as ex:
         ev = project(g, None, _exc(ex))
-    return trace(alg, "training=True", "ou-noise", "vector", [g], [ev])
+    return trace(alg, "training=True", "ou-noise", "vector", [g], [ev], {"seed": seed})
 
 
 # =================================================================================== MADDPG / MATD3
@@ -593,7 +593,36 @@ def chunks(rows, size):
         yield rows[i:i + size]
 
 
-def split_masked(rows):
-    """Rows whose mask is all ones are replayed both with an explicit mask and with action_mask=None."""
-    ones = [r for r in rows if all(x == 1 for x in r["mask"])]
-    return ones
+def rerun(cfg, seed=0):
+    """Re-execute the call a recorded trace describes (./check C14 --replay)."""
+    zoo = Zoo(seed)
+    alg, mode, variant, groups = cfg["alg"], cfg["mode"], cfg["variant"], copy.deepcopy(cfg["call"])
+    g = groups[0]
+    single = g["single"]
+    training = mode.endswith("True")
+    if alg in ("DQN", "CQN", "RainbowDQN"):
+        explore = g["rows"][0]["explore"]
+        eps = float(variant.split("=")[1]) if variant.startswith("eps=") else None
+        return run_q(zoo, alg, cfg["n"], g["rows"], explore, single=single, obs_kind=cfg["obs"],
+                     variant=variant if variant == "zero-draw" else "", eps=eps, training=training,
+                     pass_mask=cfg.get("masked", True))
+    if alg in ("NeuralUCB", "NeuralTS"):
+        return run_bandit(zoo, alg, cfg["n"], g["rows"][0], gamma=cfg["gamma"],
+                          mask_shape=variant if variant in ("flat", "column") else "flat")
+    if alg == "PPO":
+        if g["kind"] == "cont":
+            return run_ppo_cont(zoo, g, training=training, squash=(variant == "squash"))
+        return run_ppo_disc(zoo, g, training=training, variant=variant, lv=LV_LOGIT_X if variant == "logits-1e9" else None,
+                            pass_mask=cfg.get("masked", True))
+    if alg in ("DDPG", "TD3"):
+        if variant == "ou-noise":
+            return run_ddpg_ou(zoo, alg, g, seed=cfg.get("seed", seed))
+        return run_ddpg(zoo, alg, g, training=training)
+    if alg in ("MADDPG", "MATD3"):
+        if g["kind"] == "cont":
+            return run_ma_cont(zoo, alg, groups, training=training, single=single, variant=variant)
+        return run_ma_disc(zoo, alg, groups, training=training, single=single, variant=variant,
+                           with_mask=cfg.get("masked", True))
+    if alg == "IPPO":
+        return run_ippo(zoo, groups, training=training, mask_form=variant.split("-")[1] if variant.startswith("mask-") else "list")
+    raise ValueError(f"cannot replay {alg}")
